@@ -1,7 +1,7 @@
 /*@unit {
  'kind': 'proof', 'mode': 'legacy',
  'functions': ['ring_write', 'ring_putc', 'ring_full', 'ring_move_head_one'],
- 'params': {'PART': [1, 2, 3]},
+ 'params': {'PART': [1, 2, 3]}, 'cbmc_flags': ['--sat-solver', 'cadical'],
  'clauses': 'for every RING(r), every buffer content, every source block of n bytes (n symbolic; the loop is closed by an injected invariant, ring_putc/ring_full/ring_move_head_one are the real inlined code): returns min(n, room); afterwards head is len + result single steps after tail (so the reference length grows by exactly the result), tail and size unchanged, RING(r) preserved; for an arbitrary position k counted from the tail: k < len => element k keeps slot and value, len <= k < len + result => element k is source byte k - len, every other slot of the buffer keeps its value (exact frame; nothing duplicated, nothing overwritten); the source is not modified; reads only src[0..n), writes only inside the size-byte buffer',
  'inject': [{'file': 'igris/datastruct/ring.h', 'func': 'ring_write', 'loop': 0, 'expect': 'size--',
              'assigns': 'size, data, ret, r->head, __CPROVER_object_whole(buffer), g_h, g_P, g_hits, g_hit_at, g_hitP',
